@@ -410,4 +410,4 @@ def run(ctx):
 
 
 def replay(ctx, r):
-    return S.replay_case(ctx, r)
+    return S.replay_case(ctx, r, oracle=oracle)
